@@ -12,7 +12,7 @@ LPROGS = ["S0:5 X0 G0 T0:9", "S0:6", "X0 G0", "S0:5 S0:6 G0", "T0:7 X0 T0:8", "G
 class C18(ConcBase):
     id = "C18"
     design_ref = "DESIGN.md section 5 / C18"
-    theorems_note = ("data_step_atomic (every data operation is one machine step, under the data lock, and that step is the sequential "
+    theorems_note = ("data_linearizable (for EVERY run, any programs and schedule: the history of its data operations, in step order, executed sequentially on one optional slot per position gives exactly the results the threads recorded, ends in the store the machine holds, and keeps program order; every reachable state has such a history), data_step_atomic (every data operation is one machine step, under the data lock, and that step is the sequential "
                      "optional-slot operation on the data of its tree position: new content and result as specified, every other position "
                      "untouched), other_steps_keep_data, try_set_exclusive (a conditional set succeeds exactly when the slot is empty, and "
                      "fills it), payloads_dropped_once (for every reachable state: values created = values stored + values dropped; when "
@@ -22,7 +22,7 @@ class C18(ConcBase):
         "events of the real code are replayed against the machine",
         "values are handed out as Arc clones: they stay valid after being replaced or cleared (triomphe Arc counting assumed)",
     ]
-    nontrivial_rule = ("(tree, thread programs of data operations on one or two nodes, schedule); non-trivial = two threads operate on "
+    nontrivial_rule = ("(tree, thread programs of data operations on one or two nodes, schedule), K cases replayed on the machine event by event, U cases (payload destructors are scheduling points: user code may take arbitrarily long) checked by the linearizability search alone; non-trivial = two threads operate on "
                        "the same node and at least one conditional set or clear is involved; distinct = distinct case line")
     exhaustive_note = {"quick": "all schedules of length 18 with <= 2 context switches, 2 threads, 18 (tree, program pair) combinations",
                        "thorough": "all schedules of length 24 with <= 3 context switches, 2 threads, 90 (tree, program pair) combinations"}
